@@ -170,6 +170,21 @@ let () =
   let fixed = not (Array.length Sys.argv > 3 && Sys.argv.(3) = "unfixed") in
   let ic = open_in file in
   let uni = parse_universe (input_line ic) in
+  let setups : (string, string list) Hashtbl.t = Hashtbl.create 8 in
+  let pending = ref None in
+  (* header lines `setup <name> <op>;<op>;...` *)
+  (try
+     let continue = ref true in
+     while !continue do
+       let l = input_line ic in
+       if String.length l > 6 && String.sub l 0 6 = "setup " then begin
+         let rest = String.sub l 6 (String.length l - 6) in
+         let sp = String.index rest ' ' in
+         Hashtbl.replace setups (String.sub rest 0 sp)
+           (List.filter (fun x -> String.trim x <> "") (split ';' (String.sub rest (sp + 1) (String.length rest - sp - 1))))
+       end else begin pending := Some l; continue := false end
+     done
+   with End_of_file -> ());
   let n = List.length uni in
   let fresh () = { model = init uni; slots = Array.init n (fun i -> Some i) } in
   let cache : (string, state * int option array) Hashtbl.t = Hashtbl.create 16 in
@@ -188,14 +203,18 @@ let () =
   in
   (try
      while true do
-       let line = input_line ic in
+       let line = match !pending with Some l -> pending := None; l | None -> input_line ic in
        let ops = List.filter (fun x -> String.trim x <> "") (split ';' line) in
-       let nsetup, ops =
-         match ops with
-         | h :: t when String.length h > 0 && h.[0] = '@' -> (int_of_string (String.sub h 1 (String.length h - 1)), t)
-         | _ -> (0, ops) in
        let rec take k l = if k = 0 then ([], l) else match l with [] -> ([], []) | x :: t -> let (a, b) = take (k - 1) t in (x :: a, b) in
-       let setup, rest = take nsetup ops in
+       let setup, rest =
+         match ops with
+         | h :: t when String.length h > 0 && h.[0] = '@' ->
+             let tag = String.sub h 1 (String.length h - 1) in
+             (match Hashtbl.find_opt setups tag with
+              | Some sl -> (sl, t)
+              | None -> take (int_of_string tag) t)
+         | _ -> ([], ops) in
+       let nsetup = List.length setup in
        let key = String.concat ";" setup in
        let g =
          if nsetup = 0 then fresh ()
